@@ -25,6 +25,8 @@ def entries(tier):
         graph=True),
       P(name='1x1 fail then stop cap1', cfg=P(prods={'p1': (2, 1)}, cons={'c1': ('get',)}, cap=1, stoppers={'s1': False}),
         graph=True),
+      P(name='1x2 stop-exc cap1', cfg=P(prods={'p1': (1, 0)}, cons={'c1': ('get',), 'c2': ('get',)}, cap=1, stoppers={'s1': True}),
+        graph=True),
       P(name='2x1 timeout cap1', cfg=P(prods={'p1': (1, 0), 'p2': (1, 0)}, cons={'c1': ('get',)}, cap=1, timeout=True),
         graph=True),
       P(name='2x1 ignore_error cap1', cfg=P(prods={'p1': (2, 1), 'p2': (1, 0)}, cons={'c1': ('get',)}, cap=1,
